@@ -1,7 +1,11 @@
 (* Lemmas about Model/Appender.v: geometry, lengths, the tail claim, and what each append flavour does to the log
    as far as flow control is concerned (`act_spec`). *)
-Require Import V.Base.MachineInt V.Generated.GenConsts V.Model.Descriptor V.Model.LogBase V.Model.Appender
-               V.Proofs.DescriptorProofs.
+Require Import V.Base.MachineInt.
+Require Import V.Generated.GenConsts.
+Require Import V.Model.Descriptor.
+Require Import V.Model.LogBase.
+Require Import V.Model.Appender.
+Require Import V.Proofs.DescriptorProofs.
 From Coq Require Import ZifyBool.
 Open Scope Z_scope.
 
